@@ -75,6 +75,12 @@ class Sig:
 
     @property
     def attr(s):
+        if s.arr and len(s.arr) > 3:        # element of an n-dimensional list: arr = (name, flat index, n, dims)
+            j, ix = s.arr[1], []
+            for dd in reversed(s.arr[3]):
+                ix.append(j % dd)
+                j //= dd
+            return s.arr[0] + "".join("[%d]" % i for i in reversed(ix))
         return "%s[%d]" % (s.arr[0], s.arr[1]) if s.arr else s.name
 
     def full(s):
@@ -341,6 +347,20 @@ class Design:
     def py_stmts(d, stmts, host, op, ind):
         out = []
         for x in stmts:
+            if x["k"] == "as" and x.get("render") == "bareloop":
+                # target := sum of ALL elements of an n-dimensional list, written with loops over the BARE list name
+                # (the descriptor holds the sum of explicit element reads: same value, same footprint)
+                a0 = x["arr"][0]
+                base = ".".join(("s",) + a0.comp[len(host):] + (a0.arr[0],))
+                nd = len(a0.arr[3]) if len(a0.arr) > 3 else 1
+                out.append("%s_acc = Bits%d( 0 )" % (ind, x["t"].w))
+                cur, pad = base, ind
+                for lv in range(nd):
+                    out.append("%sfor _e%d in %s:" % (pad, lv, cur))
+                    cur, pad = "_e%d" % lv, pad + "  "
+                out.append("%s_acc = _acc + %s" % (pad, cur))
+                out.append("%s%s %s _acc" % (ind, x["t"].rel(host), op))
+                continue
             if x["k"] == "as":
                 t = x["t"]
                 out.append("%s%s %s %s" % (ind, t.rel(host), op,
@@ -382,7 +402,13 @@ class Design:
                 if sg.arr:
                     if sg.arr[0] not in arrays:
                         arrays[sg.arr[0]] = True
-                        body.append("s.%s = [ %s( %s ) for _ in range(%d) ]" % (sg.arr[0], ctor, ty, sg.arr[2]))
+                        if len(sg.arr) > 3:
+                            txt = "%s( %s )" % (ctor, ty)
+                            for dd in reversed(sg.arr[3]):
+                                txt = "[ %s for _ in range(%d) ]" % (txt, dd)
+                            body.append("s.%s = %s" % (sg.arr[0], txt))
+                        else:
+                            body.append("s.%s = [ %s( %s ) for _ in range(%d) ]" % (sg.arr[0], ctor, ty, sg.arr[2]))
                 else:
                     body.append("s.%s = %s( %s )" % (sg.name, ctor, ty))
             for ch in d.comps:
